@@ -81,6 +81,26 @@ func runC16(c *eng.Ctx) {
 				}
 			}
 		})
+		// … and only those: serialisation itself must stay reachable without control and for single messages
+		many := eng.CmpEdges(fn, eng.Len(eng.Param("msgs")), eng.IntConst(1), eng.GT)
+		for _, enc := range eng.CallsIn(fn, cl+"encode") {
+			g1, _ := eng.GuardedBy(fn, enc.(ssa.Instruction), cc)
+			g2, _ := eng.GuardedBy(fn, enc.(ssa.Instruction), many)
+			if g1 || g2 {
+				okPanic = false
+			}
+		}
+		eng.Instrs(fn, func(in ssa.Instruction) {
+			if pn, ok := in.(*ssa.Panic); ok {
+				// every panic is either the batch refusal or the encode failure
+				g1, _ := eng.GuardedBy(fn, pn, cc)
+				g2, _ := eng.GuardedBy(fn, pn, many)
+				afterEncode, _ := eng.PrecededBy(fn, pn, eng.IsCallTo(cl+"encode"))
+				if !(g1 && g2) && !afterEncode {
+					okPanic = false
+				}
+			}
+		})
 		c.Check(okPanic, "multi-message batches are refused under control", p.Pos(fn.Pos()), "panic on concurrencyControl ∧ len(msgs) > 1", "a batch of several messages can be appended with control on: only the first expected offset could be meaningful")
 	}
 	c.Floor(9)
